@@ -170,6 +170,19 @@ fn check(case: &Case, obs: &mut Obs) -> Verdict {
                 Ok(g) => return Verdict::Fail(format!("group_diff_ops {:?} != Capture::into_grouped_ops {:?}", g, groups)),
                 Err(p) => return Verdict::Fail(format!("group_diff_ops: {}", p)),
             }
+            // a Capture that was filled by replaying ops (DiffOp::apply_to_hook) and never got a
+            // finish() call groups its ops the same way
+            match guard(|| {
+                let mut cap = Capture::new();
+                for op in &ops {
+                    op.apply_to_hook(&mut cap).unwrap();
+                }
+                cap.into_grouped_ops(*n)
+            }) {
+                Ok(g) if g == groups => {}
+                Ok(g) => return Verdict::Fail(format!("a Capture filled through apply_to_hook (no finish call) groups into {:?}, group_diff_ops gives {:?}", g, groups)),
+                Err(p) => return Verdict::Fail(format!("Capture::into_grouped_ops after apply_to_hook: {}", p)),
+            }
             obs.nontrivial = ops.iter().filter(|o| !is_eq(o)).count() >= 2;
             obs.class("real diff: Capture::into_grouped_ops");
             obs.class_if(groups.len() >= 2, ">= 2 groups");
